@@ -335,4 +335,26 @@ example : (⟨fun s => some s, id⟩ : Codec).Faithful (fun s => (0 : UInt8) ∉
     · simp only [List.mem_replicate] at hs
       cases hs.2
 
+/-- All hypotheses of the composed theorems together, the size limit included, hold of a concrete
+file (meta string, one empty set) over the identity codec; the image size is evaluated in the kernel. -/
+example :
+    let c : Codec := ⟨fun s => some s, id⟩
+    let D : Str → Prop := fun s => (0 : UInt8) ∉ s
+    let f : ASetFile := ⟨some (bs ['m']), List.replicate 257 none, [List.replicate 257 none]⟩
+    c.Faithful D ∧ WF f ∧ Compose.AsetStrsIn D f ∧
+      ∀ a, build f = .ok a → Ser.imageSize c a < 2 ^ 32 := by
+  refine ⟨fun s hs => ⟨s, rfl, hs, rfl⟩, by decide +kernel, ⟨by decide, ?_, ?_, ?_⟩, ?_⟩
+  · intro s hs; cases hs; decide
+  · intro s hs; simp only [List.mem_replicate] at hs; cases hs.2
+  · intro set hset s hs
+    simp only [List.mem_singleton] at hset
+    subst hset
+    simp only [List.mem_replicate] at hs; cases hs.2
+  · intro a ha
+    have h : (match build ⟨some (bs ['m']), List.replicate 257 none, [List.replicate 257 none]⟩ with
+        | .ok a => decide (Ser.imageSize ⟨fun s => some s, id⟩ a < 2 ^ 32)
+        | _ => false) = true := by decide +kernel
+    rw [ha] at h
+    simpa using h
+
 end Mila.Props.C17
